@@ -151,3 +151,76 @@ func H_C10N() {
 	}
 	vReach("c10n-done")
 }
+
+// H_C10U: Visitor on a snapshot while the store holds items inserted AFTER that snapshot whose statistics have
+// not been merged yet (the merge happens in NewSnapshot): the range split works from stale counts. n concrete
+// items, snapshot, then 0..maxextra more items with symbolic keys and no further snapshot; shards 1..maxshards,
+// concurrency 1..maxconc, optional callback error. Besides exactly-once and ordering, the shard index handed to
+// the callback must be below the shard count asked for (StoreToDisk indexes its writers with it), an error must be
+// returned when a callback failed, and Visitor must terminate.
+func H_C10U() {
+	cfg, c := vConfig()
+	db := NewWithConfig(cfg)
+	ws := vWriters(db, 1)
+	n := vBound("items")
+	var g vSetModel
+	for i := 0; i < n; i++ {
+		k := byte(10 + 7*i)
+		ws[0].Put2(c.item(k, byte(i+1)))
+		g.put(int(k), c.val(byte(i+1)))
+	}
+	s, _ := db.NewSnapshot()
+	extra := vRange("extra", 0, 0, vBound("maxextra"))
+	for i := 0; i < extra; i++ {
+		if ws[0].Put2(c.item(vByte("xkey", i), 9)) != nil {
+			vReach("unmerged-insert")
+		}
+	}
+	shards := vRange("shards", 0, 1, vBound("maxshards"))
+	conc := vRange("conc", 0, 1, vBound("maxconc"))
+	failAt := vRange("failat", 0, -1, vBound("failrange"))
+	var logK, logS [12]int
+	nlog, calls := 0, 0
+	cb := func(itm *Item, shard int) error {
+		vAssert(shard >= 0 && shard < shards, "the shard index handed to the callback is below the shard count asked for")
+		k, _, ok := c.decode(itm.Bytes())
+		if !ok {
+			vFail("visitor item bytes have an unexpected shape")
+		}
+		if calls == failAt {
+			calls++
+			return fmt.Errorf("injected")
+		}
+		calls++
+		if nlog >= 12 {
+			vFail("visitor delivered more items than exist")
+		}
+		logK[nlog], logS[nlog] = k, shard
+		nlog++
+		return nil
+	}
+	err := db.Visitor(s, cb, shards, conc)
+	if failAt >= 0 && calls > failAt {
+		vAssert(err != nil, "Visitor returns an error when a callback failed")
+		vReach("callback-error-injected")
+	} else {
+		vAssert(err == nil, "Visitor returns nil when no callback failed")
+		vAssert(nlog == n, "every visible item is delivered exactly once over all shards")
+		for a := 0; a < nlog; a++ {
+			vAssert(g.has(logK[a]), "delivered item is visible in the snapshot")
+			for b := a + 1; b < nlog; b++ {
+				vAssert(logK[a] != logK[b], "no item is delivered twice")
+				if logS[a] == logS[b] && conc == 1 {
+					vAssert(logK[a] < logK[b], "ascending within a shard")
+				}
+				if logS[a] < logS[b] {
+					vAssert(logK[a] < logK[b], "every item of shard i precedes every item of shard i+1")
+				}
+				if logS[a] > logS[b] {
+					vAssert(logK[a] > logK[b], "every item of shard i precedes every item of shard i+1")
+				}
+			}
+		}
+	}
+	vReach("c10u-done")
+}
